@@ -371,12 +371,16 @@ def gen_case(rng):
     for _ in range(rng.randint(1, 3)):
         a = rng.randint(0, n - 12)
         span = rng.choice([6, 9, 12, 15, 10, 11])
+        if rng.random() < 0.12:
+            # a zero-length feature ("between two nucleotides", written a^a+1 in a Genbank file)
+            a, span = rng.randint(1, n - 1), 0
         b = min(n, a + span)
         span = b - a
-        strand = rng.choice([1, 1, -1, None])     # None: an unstranded feature (records built in Python / Snapgene)
+        strand = rng.choice([1, 1, -1, None]) if span else rng.choice([1, -1])     # None: an unstranded feature (records built in Python / Snapgene)
         subs = []
         for _ in range(rng.choice([1, 1, 2, 3])):
-            tpl = rng.choice(templates(rng, n, span))
+            tpl = rng.choice([t for t in templates(rng, n, span)
+                              if span or t[0][0] not in ("sequence", "choice")])    # the grammar cannot write an empty string
             names, args, kwargs = tpl[:3]
             sub = [rng.choice("@~"), rng.choice(names), list(args), dict(kwargs)]
             if len(tpl) > 3:
@@ -471,6 +475,9 @@ def oracle_case(inp, out, tmpdir):
         dc.biotools.write_record(record, path)
         back = dc.biotools.load_record(path)
         labels_back = [dc.biotools.find_specification_label_in_feature(f) for f in back.features]
+        if len(labels_back) != len(desc):
+            out.append(dict(kind="genbank-roundtrip:feature-count", input=inp, detail="%d features written, %d read back" % (len(desc), len(labels_back))))
+            return 1
         if labels_back != [d["label"] for d in desc]:
             # Biopython's Genbank writer hard-wraps a qualifier that has no blank within a line's width and the reader
             # joins the pieces with a blank: the label itself does not survive (known finding, see DESIGN.md)
